@@ -314,3 +314,18 @@ func (p *Prog) Named(alias, name string) *types.Named {
 func (p *Prog) FileOf(pos token.Pos) string {
 	return filepath.Base(p.Fset.Position(pos).Filename)
 }
+
+// FuncsOfPath returns the functions of the package with the given import path.
+func (p *Prog) FuncsOfPath(path string) []*FuncInfo { return p.decls[path] }
+
+// AliasOrPath returns the alias registered for an import path, or the path below the module prefix.
+func AliasOrPath(path string) string {
+	for a, pth := range pkgAlias {
+		if pth == path {
+			return a
+		}
+	}
+	path = strings.TrimPrefix(path, V2Prefix)
+	path = strings.TrimPrefix(path, ExecPrefix)
+	return path
+}
